@@ -36,8 +36,8 @@ Proof.
       destruct (check_permission m OpenLookup (v_user v)); [|now apply Hret].
       apply IH. apply is_dir_get. eauto.
     + destruct (pi_is_last pi1); now apply Hret.
-    + destruct (Nat.ltb slCountMax (S sl)); [now apply Hret|].
-      destruct (pi_is_last pi1 && slmode_eqb slm SlLstat); [now apply Hret|].
+    + destruct (pi_is_last pi1 && slmode_eqb slm SlLstat); [now apply Hret|].
+      destruct (Nat.ltb slCountMax (S sl)); [now apply Hret|].
       assert (Hsaved : (if pi_is_last pi1 && slmode_eqb slm SlStat then Some pi1 else None) = None).
       { destruct slm; try congruence; now rewrite Bool.andb_false_r. }
       rewrite Hsaved.
